@@ -315,6 +315,8 @@ def check(ctx):
     from . import c01
     c01.rule_axis_argument(ctx, rid='R6')
     c01.rule_orthogonal_indexer(ctx, rid='R7')
+    from . import c09
+    c09.rule_values_setter(ctx, rid='R8')
     ctx.not_decided += ['which cells NumPy writes for a given fancy index', 'broadcasting of the right-hand side',
                         'read-back equality (value level)']
     ctx.trusted += ['numpy.asarray(x, dtype=) converts without changing shape', 'CPython ast module']
